@@ -249,16 +249,32 @@ class RankRunner:
             elif kind == 'sched_step':
                 if self.sched is not None:
                     self.sched.step()
+            elif kind == 'reload_live':
+                # same object: second-order data recomputed from its own factors at the current damping
+                with warnings.catch_warnings():
+                    warnings.simplefilter('ignore')
+                    self.pre.load_state_dict(pickle.loads(pickle.dumps(self.pre.state_dict())), compute_inverses=True)
             elif kind == 'load':
                 sd = self.pre.state_dict(include_factors=op.get('include_factors', True))
                 blob = pickle.dumps(sd)
                 rec['saved'] = pickle.loads(blob) if 'state' in self.observe else None
                 new_model = kmodel.build_model(c['spec'], self.pd)
                 kmodel.copy_params(self.model, new_model)
+                kw = dict(self.kw)
+                if op.get('perturb_fresh'):
+                    # the fresh preconditioner is built with *other* constants: the state must restore the saved ones
+                    other = {'factor_update_steps': lambda v: v + 1, 'inv_update_steps': lambda v: v + 2, 'damping': lambda v: v * 3 + 0.5,
+                             'factor_decay': lambda v: 0.77 if v != 0.77 else 0.6, 'kl_clip': lambda v: 0.123 if v is None else v * 7, 'lr': lambda v: v * 0.5 + 0.3}
+                    for key, f in other.items():
+                        if key in kw and not callable(kw[key]):
+                            kw[key] = f(kw[key])
+                state = pickle.loads(blob)
+                if op.get('reverse_layers') and 'layers' in state:
+                    state['layers'] = dict(reversed(list(state['layers'].items())))
                 with warnings.catch_warnings():
                     warnings.simplefilter('ignore')
-                    new_pre = self.KFACPreconditioner(new_model, **self.kw)
-                    new_pre.load_state_dict(pickle.loads(blob), compute_inverses=op.get('compute_inverses', True))
+                    new_pre = self.KFACPreconditioner(new_model, **kw)
+                    new_pre.load_state_dict(state, compute_inverses=op.get('compute_inverses', True))
                 self.model, self.pre = new_model, new_pre
                 if self.sched is not None:
                     self._mk_sched()
